@@ -318,6 +318,22 @@ def make_externals():
 
     for nm in H5_STATUS:
         h5(nm, "status")
+
+    # H5Aread(attr, type, &buf): the stored value arrives in *buf (an arbitrary value of the file)
+    _aread = X["H5Aread"]
+
+    def h5aread(interp, st, args, n):
+        outs = _aread(interp, st, args, n)
+        res = []
+        for s2, r in outs:
+            p = args[2]
+            if isinstance(p, Ptr) and p.obj is not None:
+                v = fresh_int("stored_attr")
+                interp.store(s2, (p.obj, tuple(p.path)), v, n["_line"])
+                s2.trace[-1].info["value"] = v
+            res.append((s2, r))
+        return res
+    X["H5Aread"] = h5aread
     for nm in H5_ID:
         h5(nm, "id")
     for nm in H5_QUERY:
